@@ -79,7 +79,12 @@ mod __verif_native_fs {
                 put(roots[0], "order/a/x.txt", b"1"); put(roots[0], "order/a.txt", b"2"); put(roots[0], "order/a-b", b"3"); put(roots[0], "order/a b", b"4"); put(roots[0], "order/B", b"5");
                 // a directory in the TOP layer named like a file of the bottom layer
                 if nlayers >= 2 { put(roots[0], "shadow/person.bin", b"the file"); std::fs::create_dir_all(roots[nlayers - 1].join("shadow/person.bin")).unwrap(); }
-                let fs = match LayeredFilesystem::new(roots.iter().map(|r| r.to_string_lossy().to_string()).collect(), lang, game) { Ok(f) => f, Err(e) => { check(false, "C12.filesystem_opens", || format!("{:?}: {:?}", game, e)); continue; } };
+                // a child that is a symlink to a directory is a child directory
+                #[cfg(unix)]
+                { std::fs::create_dir_all(roots[0].join("linked/Real")).unwrap(); std::os::unix::fs::symlink(roots[0].join("linked/Real"), roots[0].join("linked/Link")).unwrap(); }
+                // layer roots as a caller may write them: absolute, with a trailing separator or a `.` / `dir/..` segment
+                let decorate = |i: usize, r: &Path| -> String { let s = r.to_string_lossy().to_string(); match (i + nlayers) % 3 { 0 => s, 1 => format!("{}/", s), _ => format!("{}/data/..", s) } };
+                let fs = match LayeredFilesystem::new(roots.iter().enumerate().map(|(i, r)| decorate(i, r)).collect(), lang, game) { Ok(f) => f, Err(e) => { check(false, "C12.filesystem_opens", || format!("{:?}: {:?}", game, e)); continue; } };
                 let show = |what: &str| format!("{:?} {} layers: {}", game, nlayers, what);
                 // ---- C12: top layer wins
                 for mask in 1..(1u32 << nlayers) {
@@ -111,9 +116,11 @@ mod __verif_native_fs {
                 }
                 match fs.list("shared", Some("*.dat"), false) { Ok(l) => { check(norm(l) == (0..nlayers).map(|k| format!("shared/l{}.dat", k)).collect::<Vec<_>>(), "C13.pattern_listing", || show("list(shared, *.dat)")); }
                     Err(e) => { check(false, "C13.pattern_listing", || show(&format!("{:?}", e))); } }
-                match fs.subdirectories("", false) { Ok(l) => { let mut want: Vec<String> = vec!["data".into(), "shared".into(), "order".into()]; if nlayers >= 2 { want.push("shadow".into()); } for k in 0..nlayers { want.push(format!("only{}", k)); } want.sort();
+                match fs.subdirectories("", false) { Ok(l) => { let mut want: Vec<String> = vec!["data".into(), "shared".into(), "order".into()]; if cfg!(unix) { want.push("linked".into()); } if nlayers >= 2 { want.push("shadow".into()); } for k in 0..nlayers { want.push(format!("only{}", k)); } want.sort();
                         check(norm(l.clone()) == want, "C13.subdirectories_are_the_immediate_child_directories", || show(&format!("{:?}", l))); }
                     Err(e) => { check(false, "C13.subdirectories_are_the_immediate_child_directories", || show(&format!("{:?}", e))); } }
+                #[cfg(unix)]
+                { let l = fs.subdirectories("linked", false).map(norm); check(l.as_ref().ok() == Some(&vec!["linked/Link".to_string(), "linked/Real".to_string()]), "C13.subdirectories_are_the_immediate_child_directories", || show(&format!("subdirectories(linked) = {:?}", l))); }
                 check(matches!(fs.list("nowhere", None, false), Ok(ref l) if l.is_empty()) && matches!(fs.subdirectories("nowhere", false), Ok(ref l) if l.is_empty()), "C13.absent_directory_lists_as_empty", || show("nowhere"));
                 // ---- C12: writes stay on top, read-after-write, compressed suffix
                 let before: Vec<_> = roots.iter().map(|r| snapshot(r)).collect();
@@ -149,6 +156,17 @@ mod __verif_native_fs {
                     } else { check(false, "C12.write_succeeds", || show(&p)); }
                 }
                 for l in 0..nlayers - 1 { check(snapshot(roots[l]) == before[l], "C12.lower_layers_are_never_modified", || show(&format!("layer {}", l))); }
+                // a write the TOP layer cannot take (a regular file sits where a directory is needed) is an error; it must not
+                // land in a lower layer instead
+                if nlayers >= 2 {
+                    put(roots[nlayers - 1], "blocked", b"i am a file");
+                    put(roots[0], "blocked/inner.bin", b"lower copy");
+                    let lower_before: Vec<_> = (0..nlayers - 1).map(|l| snapshot(roots[l])).collect();
+                    let r = no_panic(|| fs.write("blocked/inner.bin", b"new", false).is_ok());
+                    check(matches!(r, Ok(false)), "C12.write_targets_the_highest_priority_layer_only", || show(&format!("write under a file of the top layer -> {:?}", r)));
+                    for l in 0..nlayers - 1 { check(snapshot(roots[l]) == lower_before[l], "C12.lower_layers_are_never_modified", || show(&format!("layer {} after a write the top layer rejected", l))); }
+                    std::fs::remove_file(roots[nlayers - 1].join("blocked")).ok();
+                }
                 // every supported language: the localized listing is the listing of the localized directory, not of its parent
                 for l in LANGS { if let Some(ldir) = expected(game, l, "Loc") {
                     if let Ok(fsl) = LayeredFilesystem::new(roots.iter().map(|r| r.to_string_lossy().to_string()).collect(), l, game) {
